@@ -431,6 +431,7 @@ func checkC11(P *Program, r *Result, tier string) {
 				detail, pos = bad[0].Detail, bad[0].Pos
 			}
 			r.add("CURSOR-ARG", shortName(wr), "paths", fmt.Sprintf("all %d write calls are issued at the running cursor (%d consecutive pairs checked)", calls, pairs), pos, len(bad) == 0 && calls >= 2, detail)
+			coverRule(P, r, "CURSOR-ARG", fa, wr, wr.Params[1])
 		}
 		// ---- BLENGTH ----
 		blengthRule(P, r, A, tg.typ, bl, wr)
@@ -985,14 +986,15 @@ func checkC15(P *Program, r *Result, tier string) {
 		}
 		r.add("REMAIN", shortName(fn), "arg", "the direct writer receives exactly the payload v (zero-copy view)", P.pos(instrPos(direct)), payOK, "")
 		bd := fa.sliceDesc(buf)
-		rem := fa.expand(direct.Common().Args[1])
+		rem := substWriteResults(fa, fa.expand(direct.Common().Args[1]))
 		r.add("REMAIN", shortName(fn), "arg", "remaining capacity = len(buf) − 4 (the position right after the length prefix)", P.pos(instrPos(direct)), rem.equal(bd.Len.addConst(-4)), "argument is "+A.linString(rem))
 		// header on the direct path
 		hdr := false
 		for _, c := range callsIn(fn) {
 			cc, ok := c.(*ssa.Call)
 			cal := c.Common().StaticCallee()
-			if !ok || cal == nil || cal.Name() != "PutUint32" || !instrDominates(cc, direct) {
+			// the big-endian store itself, or the codec's own 4-byte writer (whose layout is C01's subject)
+			if !ok || cal == nil || !(cal.Name() == "PutUint32" || (cal.Name() == "WriteI32" && isBinaryProtocolMethod(cal))) || !instrDominates(cc, direct) || len(cc.Common().Args) < 3 {
 				continue
 			}
 			d := fa.sliceDesc(cc.Common().Args[1])
@@ -1009,6 +1011,8 @@ func checkC15(P *Program, r *Result, tier string) {
 			if instrDominates(direct, ret) {
 				if k, ok := constInt(ret.Results[0]); ok && k == 4 {
 					ret4 = true
+				} else if l := substWriteResults(fa, fa.expand(ret.Results[0])); l.isConst() && l.C.Cmp(bi(4)) == 0 {
+					ret4 = true // what the 4-byte writer reported
 				}
 			}
 		}
@@ -1236,4 +1240,127 @@ func directSites(P *Program, A *Analysis, r *Result) {
 			r.add("THRESHOLD", shortName(fn), "guard", "the direct path is taken only for len(v) ≥ the no-copy threshold (4096)", pos, th, "")
 		}
 	}
+}
+
+// coverRule: every byte the in-place writer counts is a byte it stored. The
+// value returned is walked back through its additions: an amount that is a
+// constant k needs stores covering [cursor, cursor+k) of the buffer that
+// dominate the addition; any other amount must be what a call reports that
+// was handed the buffer at that very cursor.
+func coverRule(P *Program, r *Result, rule string, fa *FA, fn *ssa.Function, buf *ssa.Parameter) {
+	type write struct {
+		off *Lin
+		w   int64
+		in  ssa.Instruction
+	}
+	var writes []write
+	for _, b := range fn.Blocks {
+		for _, in := range b.Instrs {
+			switch x := in.(type) {
+			case *ssa.Store:
+				if ia, ok := x.Addr.(*ssa.IndexAddr); ok {
+					if d := fa.sliceDesc(ia.X); d != nil && d.Root == ssa.Value(buf) && d.Off != nil {
+						writes = append(writes, write{d.Off.add(fa.expand(ia.Index)), 1, in})
+					}
+				}
+			case *ssa.Call:
+				if n := isBigEndianPut(x.Common().StaticCallee()); n > 0 && len(x.Common().Args) >= 2 {
+					if d := fa.sliceDesc(x.Common().Args[1]); d != nil && d.Root == ssa.Value(buf) && d.Off != nil {
+						writes = append(writes, write{d.Off, int64(n), in})
+					}
+				}
+			}
+		}
+	}
+	seen := map[ssa.Value]bool{}
+	n := 0
+	var walk func(v ssa.Value)
+	walk = func(v ssa.Value) {
+		if seen[v] {
+			return
+		}
+		seen[v] = true
+		switch x := v.(type) {
+		case *ssa.Phi:
+			for _, e := range x.Edges {
+				walk(e)
+			}
+		case *ssa.BinOp:
+			if x.Op != token.ADD {
+				return
+			}
+			base, amt := x.X, x.Y
+			if _, isCall := asCallValue(base); isCall {
+				base, amt = amt, base
+			} else if _, isC := base.(*ssa.Const); isC {
+				if _, alsoC := amt.(*ssa.Const); !alsoC {
+					base, amt = amt, base
+				}
+			}
+			n++
+			pos := P.pos(instrPos(x))
+			bl := fa.expand(base)
+			if k, isC := constInt(amt); isC {
+				if k > 0 {
+					covered := make([]bool, k)
+					for _, w := range writes {
+						if !instrDominates(w.in, x) {
+							continue
+						}
+						d := w.off.sub(bl)
+						if j, isK := d.constVal(); isK && j.IsInt64() {
+							for q := j.Int64(); q < j.Int64()+w.w; q++ {
+								if q >= 0 && q < k {
+									covered[q] = true
+								}
+							}
+						}
+					}
+					all, miss := true, int64(0)
+					for q, c := range covered {
+						if !c {
+							all, miss = false, int64(q)
+							break
+						}
+					}
+					detail := ""
+					if !all {
+						detail = fmt.Sprintf("byte %d of the %d counted here is never stored", miss, k)
+					}
+					r.add(rule, shortName(fn), "cover", "bytes the cursor moves over by a constant are bytes stored just before", pos, all, detail)
+				}
+			} else {
+				okCall := false
+				if c, isCall := asCallValue(amt); isCall {
+					for _, a := range c.Common().Args {
+						if !isByteSlice(a.Type()) {
+							continue
+						}
+						if d := fa.sliceDesc(a); d != nil && d.Root == ssa.Value(buf) && d.Off != nil && d.Off.equal(bl) {
+							okCall = true
+						}
+					}
+				}
+				r.add(rule, shortName(fn), "cover", "an amount added to the cursor is what a call reports that was given the buffer at that cursor", pos, okCall, "")
+			}
+			walk(base)
+		}
+	}
+	for _, ret := range returnsOf(fn) {
+		if len(ret.Results) > 0 {
+			walk(ret.Results[0])
+		}
+	}
+	r.require(shortName(fn)+": cursor additions on the way to the returned count", n > 0)
+}
+
+func asCallValue(v ssa.Value) (*ssa.Call, bool) {
+	switch x := v.(type) {
+	case *ssa.Call:
+		return x, true
+	case *ssa.Extract:
+		c, ok := x.Tuple.(*ssa.Call)
+		return c, ok
+	}
+	return nil, false
 }
